@@ -22,7 +22,7 @@ class SymArray(real_np.ndarray):
     __array_priority__ = 100.0
 
     def __new__(cls, arr, nominal=real_np.int8):
-        if isinstance(arr, real_np.ndarray) and arr.dtype != object:
+        if isinstance(arr, real_np.ndarray) and not isinstance(arr, SymArray) and arr.dtype != object:
             a = real_np.empty(arr.shape, dtype=object)
             flat = arr.reshape(-1)
             af = a.reshape(-1)
@@ -92,6 +92,12 @@ class SymArray(real_np.ndarray):
         r._nom = real_np.dtype(real_np.int64)
         return r
 
+    def __matmul__(self, o):
+        return _matmul(self, o)
+
+    def __rmatmul__(self, o):
+        return _matmul(o, self)
+
     def __eq__(self, o):
         return _cmp(self, o, lambda a, b: a == b)
 
@@ -128,6 +134,75 @@ class SymArray(real_np.ndarray):
         return self.tobytes()
 
 
+def _split(a):
+    """-> (int64 array of the concrete entries with 0 at symbolic positions, list of (index, symbolic entry))"""
+    if _is_native(a):
+        return a.astype(real_np.int64), []
+    A = real_np.asarray(a)
+    conc = real_np.zeros(A.shape, dtype=real_np.int64)
+    sym = []
+    for idx in real_np.ndindex(*A.shape):
+        e = A[idx]
+        if isinstance(e, (SV, SB)):
+            sym.append((idx, e if isinstance(e, SV) else core.mk((e.l,))))
+        else:
+            conc[idx] = int(e)
+    return conc, sym
+
+
+def _matmul(a, b):
+    """matrix product with native arithmetic on the concrete parts; only symbolic entries go through Python objects.
+    Returns a native int64 array when no symbolic entry is involved."""
+    a1 = a.ndim == 1
+    b1 = b.ndim == 1
+    Ac, As = _split(a)
+    Bc, Bs = _split(b)
+    if a1:
+        Ac = Ac.reshape(1, -1)
+        As = [((0, i[0]), e) for i, e in As]
+    if b1:
+        Bc = Bc.reshape(-1, 1)
+        Bs = [((i[0], 0), e) for i, e in Bs]
+    base = Ac @ Bc
+    if not As and not Bs:
+        res = base
+    else:
+        res = base.astype(object)
+        flat_bs = {}
+        for (k, j), e in Bs:
+            flat_bs.setdefault(k, []).append((j, e))
+        # concrete A x symbolic B
+        for k, lst in flat_bs.items():
+            rows = real_np.nonzero(Ac[:, k])[0]
+            for j, e in lst:
+                for i in rows:
+                    c = int(Ac[i, k])
+                    res[i, j] = res[i, j] + (e if c == 1 else c * e)
+        # symbolic A x (concrete + symbolic) B
+        if As:
+            Bfull = b.astype(object) if _is_native(b) else real_np.asarray(b)
+            if b1:
+                Bfull = Bfull.reshape(-1, 1)
+            for (i, k), e in As:
+                for j in range(Bfull.shape[1]):
+                    v = Bfull[k, j]
+                    if isinstance(v, (SV, SB)) or int(v) != 0:
+                        res[i, j] = res[i, j] + e * _py(v)
+    if a1 and b1:
+        return res[0, 0]
+    if a1:
+        res = res[0]
+    elif b1:
+        res = res[:, 0]
+    if res.dtype == object:
+        return _wrap(res, real_np.int64)
+    return res
+
+
+def _is_native(a):
+    return isinstance(a, real_np.ndarray) and not isinstance(a, SymArray) and a.dtype != object
+
+
 def _cmp(a, o, f):
     A = real_np.asarray(a)
     if isinstance(o, (list, tuple)):
@@ -152,7 +227,7 @@ def _cmp(a, o, f):
 def _obj_array(x):
     """python nested lists / arrays -> object ndarray with python-int / SV leaves"""
     if isinstance(x, real_np.ndarray):
-        if x.dtype == object:
+        if isinstance(x, SymArray) or x.dtype == object:
             return real_np.asarray(x)
         return real_np.asarray(SymArray(x))
     if isinstance(x, (SV, SB)) or not hasattr(x, "__len__"):
@@ -215,8 +290,15 @@ class NPProxy(types.ModuleType):
         return self.eye(n, dtype=dtype)
 
     def array(self, obj, dtype=None, **kw):
-        if isinstance(obj, real_np.ndarray) and obj.dtype != object and dtype is None:
-            return SymArray(obj, obj.dtype)
+        if _is_native(obj):
+            return real_np.array(obj, dtype=dtype)
+        if isinstance(obj, (list, tuple)) and len(obj) > 0:
+            try:
+                probe = real_np.array(obj)
+            except Exception:
+                probe = None
+            if probe is not None and probe.dtype != object and probe.dtype.kind in "biuf":
+                return probe if dtype is None else probe.astype(dtype)
         if isinstance(obj, (list, tuple)) and len(obj) == 0:
             # np.array([]) is a float64 array of shape (0,): keep the native behaviour visible
             return SymArray(real_np.empty((0,), dtype=object), dtype if dtype is not None else real_np.float64)
@@ -234,14 +316,20 @@ class NPProxy(types.ModuleType):
         return self.array(obj, dtype=dtype)
 
     def concatenate(self, arrs, axis=0, **kw):
+        if all(_is_native(a) for a in arrs):
+            return real_np.concatenate(arrs, axis=axis)
         arrs = [a if isinstance(a, real_np.ndarray) and a.dtype == object and isinstance(a, SymArray) else SymArray(_obj_array(a), _nominal_of([a])) for a in arrs]
         return _wrap(real_np.concatenate([real_np.asarray(a) for a in arrs], axis=axis), _nominal_of(arrs))
 
     def hstack(self, arrs, **kw):
+        if all(_is_native(a) for a in arrs):
+            return real_np.hstack(arrs)
         arrs = [SymArray(_obj_array(a), _nominal_of([a])) for a in arrs]
         return _wrap(real_np.hstack([real_np.asarray(a) for a in arrs]), _nominal_of(arrs))
 
     def vstack(self, arrs, **kw):
+        if all(_is_native(a) for a in arrs):
+            return real_np.vstack(arrs)
         arrs = [SymArray(_obj_array(a), _nominal_of([a])) for a in arrs]
         return _wrap(real_np.vstack([real_np.asarray(a) for a in arrs]), _nominal_of(arrs))
 
@@ -251,26 +339,36 @@ class NPProxy(types.ModuleType):
                 return [conv(e) for e in b]
             return real_np.asarray(SymArray(_obj_array(b), _nominal_of([b])))
         flat = list(_leaves(blocks))
+        if all(_is_native(a) for a in flat):
+            return real_np.block(blocks)
         return _wrap(real_np.block(conv(blocks)), _nominal_of(flat))
 
     def any(self, a, axis=None, **kw):
         if not isinstance(a, SymArray):
             a = self.array(a)
+        if _is_native(a):
+            return real_np.any(a, axis=axis)
         return a.any(axis=axis)
 
     def all(self, a, axis=None, **kw):
         if not isinstance(a, SymArray):
             a = self.array(a)
+        if _is_native(a):
+            return real_np.all(a, axis=axis)
         return a.all(axis=axis)
 
     def sum(self, a, axis=None, **kw):
         if not isinstance(a, SymArray):
             a = self.array(a)
+        if _is_native(a):
+            return real_np.sum(a, axis=axis)
         return a.sum(axis=axis)
 
     def array_equal(self, a, b, **kw):
-        a = a if isinstance(a, SymArray) else self.array(a)
-        b = b if isinstance(b, SymArray) else self.array(b)
+        if _is_native(a) and _is_native(b):
+            return bool(real_np.array_equal(a, b))
+        a = a if isinstance(a, SymArray) else SymArray(_obj_array(a), _nominal_of([a]))
+        b = b if isinstance(b, SymArray) else SymArray(_obj_array(b), _nominal_of([b]))
         if real_np.ndarray.__getattribute__(a, "shape") != real_np.ndarray.__getattribute__(b, "shape"):
             return False
         return (a == b).all()
@@ -279,6 +377,8 @@ class NPProxy(types.ModuleType):
         if rest:
             raise NotImplementedError("three-argument np.where is not used by the library")
         c = cond if isinstance(cond, SymArray) else self.array(cond)
+        if _is_native(c):
+            return real_np.where(c)
         conc = real_np.empty(c.shape, dtype=bool)
         for idx in real_np.ndindex(*c.shape):
             conc[idx] = bool(real_np.asarray(c)[idx])    # forks (or uniqueness query) per element
